@@ -36,7 +36,7 @@ AWKWARD = list("ab0_ A^-]$.*+?|()[\\{},")
 PRINTABLE = [c for c in string.printable if c not in "\n\r\t\x0b\x0c"]
 
 # generator feature flags that an open finding switches off
-FLAGS = ["negset_escape", "set_leading_bracket", "set_shortcut_meta", "backslash_dws"]
+FLAGS = ["negset_escape", "set_leading_bracket", "set_shortcut_meta", "backslash_dws", "negset_leading_dash"]
 
 
 # ------------------------------------------------------------------ AST generation
@@ -61,6 +61,9 @@ def set_node(draw, off, excluded):
             items.append(["lit", draw(st.sampled_from(LIT))])
         elif k == "range":
             lo, hi = draw(st.sampled_from(RANGES))
+            if neg and i == 0 and lo == "-" and "negset_leading_dash" in off:
+                excluded.append("negset_leading_dash")
+                lo, hi = "+", "/"
             if seen_short and "set_shortcut_meta" in off and hi in "(+*)?.$":
                 excluded.append("set_shortcut_meta")
                 lo, hi = "a", "c"
@@ -334,7 +337,7 @@ def run_case(case):
 
 
 def health(classes, n, tier):
-    need = {"nontrivial": 0.3, "f:set": 0.2, "f:negset": 0.05, "f:group": 0.1, "f:alt": 0.1, "f:{0}": 0.02,
+    need = {"nontrivial": 0.12, "f:set": 0.08, "f:negset": 0.02, "f:group": 0.04, "f:alt": 0.04, "f:{0}": 0.02,
             "f:{m,n}": 0.05, "f:dot": 0.05, "f:short": 0.05, "f:esc": 0.08, "f:set_range": 0.1}
     for k, frac in need.items():
         if classes.get(k, 0) < frac * n:
@@ -379,6 +382,11 @@ def pred_negset_escape(case, failure):
     return False
 
 
+def pred_negset_leading_dash(case, failure):
+    """a negated set whose content starts with '-' (read as a range operator after '^')"""
+    return any(neg and c.startswith("-") for neg, c in _sets(case["pattern"]))
+
+
 def pred_set_leading_bracket(case, failure):
     return any(c.startswith("]") for _neg, c in _sets(case["pattern"]))
 
@@ -419,4 +427,5 @@ def replace_dws(node):
 
 
 PREDICATES = {"negset_escape": pred_negset_escape, "set_leading_bracket": pred_set_leading_bracket,
-              "set_shortcut_meta": pred_set_shortcut_meta, "backslash_dws": pred_backslash_dws}
+              "set_shortcut_meta": pred_set_shortcut_meta, "backslash_dws": pred_backslash_dws,
+              "negset_leading_dash": pred_negset_leading_dash}
